@@ -132,3 +132,93 @@ def run(pid, cfg, ctx):
                 raise ValueError(pid)
     if graphs and n >= 2:
         ctx.cover(f"scheduler[n={n}].all_request", z3.And(*req), hw=hw)
+
+
+# ------------------------------------------------------------------------------------------------
+# trivial_roundrobin_cc_scheduler: function contract, per component size (the function looks at nothing but |cc|)
+
+
+class _TopRR(Elaboratable):
+    def __init__(self, n):
+        from transactron.core.body import Body
+
+        self.bodies = [Body(name=f"t{i}", owner=None, i=StructLayout({}), o=StructLayout({}), src_loc=("schedfn", i)) for i in range(n)]
+        self.n = n
+
+    def elaborate(self, platform):
+        import transactron.core.schedulers as S
+
+        m = Module()
+        gr = {b: {c for c in self.bodies if c is not b} for b in self.bodies}
+        porder = {b: i for i, b in enumerate(self.bodies)}
+        # the manager passes the component as a set; the function iterates it, so the body -> arbiter slot
+        # assignment is whatever that iteration order is: the contract locates each body's slot by solver query
+        m.submodules.sched = S.trivial_roundrobin_cc_scheduler(None, gr, set(self.bodies), porder)
+        return m
+
+
+def configs_rr(tier):
+    return [{"kind": "schedfn_rr", "n": n} for n in (range(1, 7) if tier == "quick" else range(1, 11))]
+
+
+def run_rr(pid, cfg, ctx):
+    """requires  cc non-empty
+    ensures   run_k => ready_k and runnable_k;  at most one run;  some request => some run;
+              grant register one-hot (inductive);  ghost wait counter of every body <= n-1 (inductive ranking
+              invariant w_k + ((slot_k - last_grant - 1) mod n) <= n-1), i.e. a body that keeps requesting runs
+              within n cycles, from every state satisfying the invariant."""
+    from transactron.utils.amaranth_ext.elaboratables import OneHotRoundRobin
+    from spec.seq import N, NW, at_most_one, bit, le, nmod
+
+    n = cfg["n"]
+    top = _TopRR(n)
+    ins = [s for b in top.bodies for s in (b.ready, b.runnable)]
+    hw = HW(top, ins, [b.run for b in top.bodies], capture=(OneHotRoundRobin,))
+    ((rr, loc),) = hw.rec.locals_of_class(OneHotRoundRobin)
+    greg_s = loc["grant_reg"]
+    run_ = [hw.b(b.run) for b in top.bodies]
+    req = [z3.And(hw.b(b.ready), hw.b(b.runnable)) for b in top.bodies]
+    g, v = hw.sig(rr.grant), hw.b(rr.valid)
+    slot = {}
+    for i in range(n):
+        for k in range(n):
+            s = z3.Solver()
+            s.add(z3.Not(z3.Implies(run_[i], z3.And(bit(g, k), v))))
+            s2 = z3.Solver()
+            s2.add(run_[i])
+            if s.check() == z3.unsat and s2.check() == z3.sat:
+                slot.setdefault(i, k)
+    if sorted(slot.values()) != list(range(n)):
+        raise RuntimeError(f"could not locate the arbiter slots: {slot}")
+    w = [hw.ghost(f"w_{i}", NW) for i in range(n)]
+    for i in range(n):
+        hw.set_ghost_next(w[i], z3.If(z3.And(req[i], z3.Not(run_[i])), w[i] + 1, N(0)))
+    ctx.use(hw, xval_cycles=16)
+
+    def idx_of(x):
+        r = N(0)
+        for i in range(n):
+            r = z3.If(bit(x, i), N(i), r)
+        return r
+
+    def inv(nextstate):
+        greg = hw.nxt(greg_s) if nextstate else hw.sig(greg_s)
+        cs = [greg != 0, (greg & (greg - 1)) == 0]
+        for i in range(n):
+            wt = hw.gnext(w[i]) if nextstate else w[i]
+            rank = nmod(N(slot[i]) + N(2 * n) - idx_of(greg) - 1, n)
+            cs += [le(wt, n - 1), le(wt + rank, n - 1)]
+        return z3.And(*cs)
+
+    pre = [inv(False)]
+    tag = f"rr_scheduler[n={n}]"
+    ctx.prove(f"{tag}.init.wf", hw.ts.at_init(inv(False)))
+    ctx.prove(f"{tag}.step.wf", inv(True), pre=pre, hw=hw)
+    ctx.prove(f"{tag}.run_implies_ready_and_runnable", z3.And(*[z3.Implies(run_[k], req[k]) for k in range(n)]), pre=pre, hw=hw)
+    ctx.prove(f"{tag}.at_most_one_runs", at_most_one(run_), pre=pre, hw=hw)
+    ctx.prove(f"{tag}.one_runs_when_some_request", z3.Implies(z3.Or(*req), z3.Or(*run_)), pre=pre, hw=hw)
+    for i in range(n):
+        ctx.prove(f"{tag}.t{i}.wait_bounded_by_component_size", le(w[i], n - 1), pre=pre, hw=hw)
+    ctx.cover(f"{tag}.all_request", z3.And(*pre, *req), hw=hw)
+    if n > 1:
+        ctx.cover(f"{tag}.waited_max", z3.And(*pre, w[0] == n - 1), hw=hw)
